@@ -120,9 +120,17 @@ Proof.
   intros H. unfold check_kind. apply conn_tmap_keys in H. apply existsb_beqb_In in H. now rewrite H.
 Qed.
 
-Lemma unknown_kind_sys v le files procs k :
-  ~ In k kinds -> net_connections v le files procs k = Exc ValueError.
-Proof. intros H. unfold net_connections. now rewrite (check_kind_bad k H). Qed.
-Lemma unknown_kind_proc v le files pid ls k :
-  ~ In k kinds -> proc_net_connections v le files pid ls k = Exc ValueError.
-Proof. intros H. unfold proc_net_connections. now rewrite (check_kind_bad k H). Qed.
+Lemma unknown_kind_sys v le o files procs k :
+  ~ In k kinds -> net_connections_adds v le o files procs k = Exc ValueError
+                  /\ net_connections v le o files procs k = Exc ValueError
+                  /\ net_log v le o files procs k = [].
+Proof.
+  intros H. unfold net_connections, net_connections_adds, net_log. now rewrite (check_kind_bad k H).
+Qed.
+Lemma unknown_kind_proc v le o files pid ls k :
+  ~ In k kinds -> proc_net_connections_adds v le o files pid ls k = Exc ValueError
+                  /\ proc_net_connections v le o files pid ls k = Exc ValueError
+                  /\ proc_log v le o files pid ls k = [].
+Proof.
+  intros H. unfold proc_net_connections, proc_net_connections_adds, proc_log. now rewrite (check_kind_bad k H).
+Qed.
